@@ -11,7 +11,7 @@ ALIGNS = ['none', 'xMinYMin', 'xMidYMin', 'xMaxYMin', 'xMinYMid', 'xMidYMid', 'x
 COQ_ALIGN = {'none': 'ANone', 'xMinYMin': 'XMinYMin', 'xMidYMin': 'XMidYMin', 'xMaxYMin': 'XMaxYMin',
              'xMinYMid': 'XMinYMid', 'xMidYMid': 'XMidYMid', 'xMaxYMid': 'XMaxYMid',
              'xMinYMax': 'XMinYMax', 'xMidYMax': 'XMidYMax', 'xMaxYMax': 'XMaxYMax'}
-KINDS = ['root', 'nested', 'symbol', 'image', 'pattern', 'pattern-obb', 'marker']
+KINDS = ['root', 'nested', 'symbol', 'image', 'pattern', 'pattern-obb', 'marker', 'use-svg', 'image-dpi']
 NS = 'xmlns="http://www.w3.org/2000/svg" xmlns:xlink="http://www.w3.org/1999/xlink"'
 PROBE = '<rect fill="#010203" x="1" y="2" width="3" height="4"/>'
 
@@ -38,7 +38,9 @@ def gen_case(rng, kind, align, slice_):
     X = dy(rng, -50, 50)
     Y = dy(rng, -50, 50)
     return dict(kind=kind, align=align, slice=slice_, vb=[vx, vy, vw, vh], W=W, H=H, X=X, Y=Y,
-                pcu=rng.choice(['', ' patternContentUnits="userSpaceOnUse"', ' patternContentUnits="objectBoundingBox"']))
+                pcu=rng.choice(['', ' patternContentUnits="userSpaceOnUse"', ' patternContentUnits="objectBoundingBox"']),
+                over=rng.choice(['w', 'h', 'wh', '']), A=dy(rng, 1, 300), B=dy(rng, 1, 300),
+                dpi=rng.choice([72, 96, 192, 300]), unit=rng.choice(['in', 'pt', 'pc']))
 
 
 def par(c):
@@ -76,6 +78,25 @@ def make_doc(c):
                 'refX="%s" refY="%s" viewBox="%s" preserveAspectRatio="%s" overflow="visible">%s</marker>'
                 '<path d="M 48 64 L 200 64" stroke="black" marker-start="url(#m)"/></svg>'
                 % (NS, fs(c['W']), fs(c['H']), fs(c['X']), fs(c['Y']), vb, par(c), PROBE))
+    if k == 'use-svg':
+        # a `use` overriding none / one / both of the referenced svg's width and height
+        ov = ''
+        if 'w' in c['over']:
+            ov += ' width="%s"' % fs(c['W'])
+        if 'h' in c['over']:
+            ov += ' height="%s"' % fs(c['H'])
+        return ('<svg %s width="600" height="600"><defs><svg id="t" width="%s" height="%s" viewBox="%s" preserveAspectRatio="%s" '
+                'overflow="visible">%s</svg></defs><use xlink:href="#t" x="%s" y="%s"%s/></svg>'
+                % (NS, fs(c['A']), fs(c['B']), vb, par(c), PROBE, fs(c['X']), fs(c['Y']), ov))
+    if k == 'image-dpi':
+        # nested SVG image whose intrinsic size is given in physical units: it must be resolved at the configured DPI
+        ua, ub = unit_amount(c)
+        inner = '<svg xmlns="http://www.w3.org/2000/svg" width="%s%s" height="%s%s"><rect width="5" height="5"/></svg>' % (
+            fs(ua), c['unit'], fs(ub), c['unit'])
+        href = 'data:image/svg+xml;base64,' + base64.b64encode(inner.encode()).decode()
+        return ('<svg %s width="600" height="600"><image x="%s" y="%s" width="%s" height="%s" preserveAspectRatio="%s" '
+                'xlink:href="%s"/></svg>'
+                % (NS, fs(c['X']), fs(c['Y']), fs(c['W']), fs(c['H']), par(c), href))
     if k == 'image':
         inner = '<svg xmlns="http://www.w3.org/2000/svg" width="%s" height="%s"><rect width="5" height="5"/></svg>' % (
             fs(c['vb'][2]), fs(c['vb'][3]))
@@ -84,6 +105,15 @@ def make_doc(c):
                 'xlink:href="%s"/></svg>'
                 % (NS, fs(c['X']), fs(c['Y']), fs(c['W']), fs(c['H']), par(c), href))
     raise ValueError(k)
+
+
+UNIT_PER_INCH = {'in': 1, 'pt': 72, 'pc': 6}
+
+
+def unit_amount(c):
+    """amounts (in c['unit']) chosen so that the pixel size at c['dpi'] is the dyadic c['A'] x c['B']"""
+    k = Fraction(UNIT_PER_INCH[c['unit']], c['dpi'])
+    return c['A'] * k, c['B'] * k
 
 
 def walk(node, f, inherited=None):
@@ -126,7 +156,7 @@ def find_probe(tree, kind):
         rec(pr, [1.0, 0.0, 0.0, 1.0, 0.0, 0.0])
         return res[0] if res else None
     walk(tree['root'], visit)
-    if kind == 'image':
+    if kind in ('image', 'image-dpi'):
         ims = [x for x in found if isinstance(x, tuple)]
         if not ims:
             return None
@@ -152,6 +182,15 @@ def coq_expected(c):
                 % (coq_vb(c), size, qstr(c['X']), qstr(c['Y'])))
     if k in ('nested', 'symbol'):
         return "(ts_concat (from_translate %s %s) (to_transform %s %s))" % (qstr(c['X']), qstr(c['Y']), coq_vb(c), size)
+    if k == 'use-svg':
+        ew = c['W'] if 'w' in c['over'] else c['A']
+        eh = c['H'] if 'h' in c['over'] else c['B']
+        return ("(ts_concat (from_translate %s %s) (to_transform %s {| sw := %s; sh := %s |}))"
+                % (qstr(c['X']), qstr(c['Y']), coq_vb(c), qstr(ew), qstr(eh)))
+    if k == 'image-dpi':
+        return ("(image_ts {| sw := %s; sh := %s |} {| rx := %s; ry := %s; rw := %s; rh := %s |} {| ar_align := %s; ar_slice := %s |})"
+                % (qstr(c['A']), qstr(c['B']), qstr(c['X']), qstr(c['Y']), qstr(c['W']), qstr(c['H']),
+                   COQ_ALIGN[c['align']], 'true' if c['slice'] else 'false'))
     if k == 'image':
         return ("(image_ts {| sw := %s; sh := %s |} {| rx := %s; ry := %s; rw := %s; rh := %s |} {| ar_align := %s; ar_slice := %s |})"
                 % (qstr(c['vb'][2]), qstr(c['vb'][3]), qstr(c['X']), qstr(c['Y']), qstr(c['W']), qstr(c['H']),
@@ -182,6 +221,12 @@ def spec_check(c, t, tol=2e-4):
         if abs(sx - exp[0]) > tol * max(1, exp[0]) or abs(sy - exp[1]) > tol * max(1, exp[1]) or abs(kx) > tol or abs(ky) > tol:
             bad.append('marker_scale')
         return bad
+    if k == 'use-svg':
+        W = float(c['W'] if 'w' in c['over'] else c['A'])
+        H = float(c['H'] if 'h' in c['over'] else c['B'])
+    if k == 'image-dpi':
+        vx = vy = 0.0
+        vw, vh = float(c['A']), float(c['B'])
     if k == 'image':
         vx = vy = 0.0   # the picture's own box is (0,0,aw,ah)
     bad = []
@@ -316,7 +361,7 @@ def run(ctx):
                 for _ in range(reps):
                     cases.append(gen_case(rng, kind, al, sl))
     docs = [make_doc(c) for c in cases]
-    outs = ctx.rvh_batch(binp, 'dump', ["-\t" + d for d in docs])
+    outs = ctx.rvh_batch(binp, 'dump', [("dpi=%d" % c['dpi'] if c['kind'] == 'image-dpi' else "-") + "\t" + d for c, d in zip(cases, docs)])
     coq_items = []
     idx_map = []
     spec_fail = []
@@ -506,6 +551,43 @@ def run(ctx):
             ctx.violation("rendering with root scale %s differs from the document with width/height x %s (%d pixels, max delta %d)"
                           % (s, s, r['ndiff'], r['max']), dict(docA=da, docB=db, scale=s, result=r))
     ctx.cov['scale_law_renders'] = len(items)
+    # ---- S4: the scale law through the node-export entry point (render_node): exporting a node of T under a
+    # root scale s equals exporting the same node of the document resized by s.
+    nex = 30 if quick else 300
+    eitems = []
+    emetas = []
+    for _ in range(nex):
+        c = gen_case(rng, 'root', rng.choice(ALIGNS), bool(rng.below(2)))
+        c['W'] = Fraction(rng.choice([40, 64, 100]))
+        c['H'] = Fraction(rng.choice([40, 50, 90]))
+        s = rng.choice([2, 3, 1.5, 0.5])
+        vb = c['vb']
+        # the exported node sits away from the page origin, inside a translated parent
+        content = ('<g transform="translate(%s %s)"><rect id="n" x="%s" y="%s" width="%s" height="%s" fill="green" stroke="blue" stroke-width="%s"/></g>'
+                   % (fs(vb[2] / 16), fs(vb[3] / 16), fs(vb[0] + vb[2] / 4), fs(vb[1] + vb[3] / 4), fs(vb[2] / 3), fs(vb[3] / 3), fs(vb[2] / 32)))
+        head = '<svg %s width="%%s" height="%%s" viewBox="%s" preserveAspectRatio="%s">%s</svg>' % (
+            NS, ' '.join(fs(v) for v in vb), par(c), content)
+        da = head % (fs(c['W']), fs(c['H']))
+        db = head % (fs(c['W'] * Fraction(s)), fs(c['H'] * Fraction(s)))
+        eitems.append("-\t%s\t%s\tn\t%s" % (da, db, s))
+        emetas.append((da, db, s))
+    eouts = ctx.rvh_batch(binp, 'c17-export-scale', eitems)
+    for (da, db, s), o in zip(emetas, eouts):
+        try:
+            r = json.loads(o)
+        except (TypeError, ValueError):
+            r = {'error': 'unparsable'}
+        ctx.note_case("export-scale/" + da + str(s), nontrivial=r.get('nonblank', 0) > 0)
+        if 'ndiff' not in r:
+            if r.get('error') in ('no layer box', 'node not found'):
+                continue
+            ctx.violation("node export under a root scale failed: %s" % str(r)[:200], dict(docA=da, docB=db, scale=s, id='n'))
+            continue
+        if r['some'] != [True, True] or r['nbig'] > 6 or r['ndiff'] > max(16, r['nonblank'] * 15 // 100):
+            ctx.violation("render_node with root scale %s differs from the resized document (%d pixels, max delta %d)"
+                          % (s, r['ndiff'], r['max']), dict(docA=da, docB=db, scale=s, id='n', result=r))
+    ctx.cov['export_scale_renders'] = len(eitems)
+
     ctx.cov['rule'] = ("viewbox: every (element kind in root/nested svg/symbol/image/pattern) x (10 aligns x meet/slice + none) x random dyadic "
                        "viewBox/viewport rectangles (aspect 1:50..50:1, negative origins); svg-size: random width/height (unit, percent, missing, "
                        "non-positive) x viewBox x dpi x default size; scale-law: rendered pairs.  A case is non-trivial when the document parses "
